@@ -5,7 +5,7 @@ from checklib import Scenario
 
 RULE = ("objects built by random setter histories (any interleaving of group-less and sectioned keys, re-opened sections, "
         "overwritten keys; typed values) or parsed from conventional files (general ones, and dense ones where value-less keys stand directly below other entries) and then modified, for delimiter tags =, :, space "
-        "and comment tags #, ;; each is written with econf_writeFile and read back with its own tags; for objects the Coq "
+        "and comment tags #, ;; each is written with econf_writeFile (in half of the cases over a longer file saved earlier under the same name) and read back with its own tags; for objects the Coq "
         "predicate `writable` accepts (decided by the extracted model), every section must hold the same keys in order with "
         "the same values, and single-line entries keep their comments; non-writable objects only check model = implementation; "
         "distinct by written bytes")
@@ -59,8 +59,13 @@ def gen(rng, tier):
     out = []
     for cmds, v in zip(pre, verdicts):
         w = v[-1]
-        s = Scenario(cmds + ["dump 0", "getall 0", "reread 1 0", "getall 1", "ext 1 - x6b31"],
-                     [False] * len(cmds) + [False, True, True, True, False], tags=("writable" if w.startswith("writable=1") else "other",))
+        pre_w = []
+        if rng.random() < 0.5:
+            # an earlier, longer save exists under the same name: the write has to replace it, not overwrite its beginning
+            pre_w = ["newini 9"] + ["set 9 string %s %s %s 0" % (vlib.enc(b"old section %d" % j), vlib.enc(b"old-key-%d" % j), vlib.enc(b"old value " * 8))
+                                     for j in range(rng.randrange(1, 6))] + ["write 9"]
+        s = Scenario(cmds + pre_w + ["dump 0", "getall 0", "reread 1 0", "getall 1", "ext 1 - x6b31"],
+                     [False] * (len(cmds) + len(pre_w)) + [False, True, True, True, False], tags=("writable" if w.startswith("writable=1") else "other",))
         s.wspec = w
         out.append(s)
     return out
